@@ -8,7 +8,7 @@ trap 'git -C /repo checkout -- . ; git -C /repo clean -fdq' EXIT
 git apply "$P" || { echo "patch does not apply"; exit 2; }
 cd /verif
 for prop in "$@"; do
-  out=$(./check $prop quick 2>&1); rc=$?
+  out=$(QV_EVIDENCE_DIR=/tmp/seed-evidence ./check $prop quick 2>&1); rc=$?
   echo "$prop exit=$rc $(echo "$out" | grep '^property')"
   echo "$out" | grep '^VIOLATION' | head -4 | cut -c1-170
 done
